@@ -69,7 +69,15 @@ type parentCell struct {
 
 var parentCells [][]parentCell
 
+// sharedHints is the application-wide, read-only hints map of the 1-D operations.
+var sharedHints map[gozxing.DecodeHintType]interface{}
+
 func buildParents() {
+	sharedHints = map[gozxing.DecodeHintType]interface{}{
+		gozxing.DecodeHintType_TRY_HARDER:                 true,
+		gozxing.DecodeHintType_NEED_RESULT_POINT_CALLBACK: gozxing.ResultPointCallback(func(gozxing.ResultPoint) {}),
+		gozxing.DecodeHintType_ALLOWED_EAN_EXTENSIONS:     []int{0, 2, 5},
+	}
 	for i := 0; i < 2; i++ {
 		canvas, _ := gozxing.NewBitMatrix(640, 430)
 		var cells []parentCell
@@ -384,6 +392,19 @@ func runOp(in *instances, op OpSpec) (d string) {
 		var dh map[gozxing.DecodeHintType]interface{}
 		if r.intn(3) == 0 {
 			dh = map[gozxing.DecodeHintType]interface{}{gozxing.DecodeHintType_TRY_HARDER: true}
+		}
+		if r.intn(4) == 0 {
+			// one application-wide hints map, built before the tasks start and only
+			// ever read by the application: the library must not write to it
+			dh = sharedHints
+			if r.intn(2) == 0 {
+				// the picture is upside down: the forward attempt on each row fails
+				// and the reversed-row attempt reads it
+				m.Rotate180()
+				if b2, e2 := gozxing.NewBinaryBitmapFromImage(m); e2 == nil {
+					bmp = b2
+				}
+			}
 		}
 		res, err := rd.Decode(bmp, dh)
 		out := digestMatrix(m, nil) + " | " + digestResult(res, err)
